@@ -212,7 +212,12 @@ func leakRun(c leakCase, r *runCtx) {
 			en.st.SetReadDeadline(time.Now().Add(e2Stall))
 			got, err := en.st.BufferReader().ReadBytes(n)
 			if err != nil {
-				r.Violf("op %d: stream %d end %d: ReadBytes(%d) of bytes flushed by the peer failed: %v", oi, op.I, op.E, n, err)
+				qs := func(s *Session) string {
+					return fmt.Sprintf("recvQ=%d flag=%d closed=%v streams=%d", s.queueManager.recvQueue.size(), *s.queueManager.recvQueue.workingFlag, s.IsClosed(), s.GetActiveStreamCount())
+				}
+				r.Violf("op %d: stream %d end %d: ReadBytes(%d) of bytes flushed by the peer failed: %v\n(reader: state %d, buffered %d, pending %d, fallback=%v; peer: state %d fallback=%v; client session %s; server session %s)",
+					oi, op.I, op.E, n, err, en.st.getStreamState(), en.st.recvBuf.Len(), len(en.st.pendingData.unread), en.st.inFallbackState,
+					peer.st.getStreamState(), peer.st.inFallbackState, qs(p.c), qs(p.s))
 				return
 			}
 			for j := range got {
@@ -252,9 +257,20 @@ func leakRun(c leakCase, r *runCtx) {
 			}
 			en.st.Close()
 			en.closed = true
+			if c.CB[op.I] && op.E == 0 {
+				// a Close issued while OnData runs is finished by the callback goroutine; the history goes on using the
+				// stream's writer from this goroutine, which is only meaningful once that has happened (a writer racing the
+				// deferred clean-up is outside the histories of this property; see DESIGN.md 12)
+				en.st.asyncGoroutineWg.Wait()
+			}
 		case "poolput":
 			// what SessionManager.PutBack does with a client stream: reset + reuse, or close
 			if op.E != 0 || en.closed || c.CB[op.I] {
+				continue
+			}
+			// an application puts a stream back when its exchange is over: with written but unflushed bytes ReleaseReadAndReuse
+			// would swap them into the read buffer (and a later Flush has nothing to send) - not a history the property is about
+			if en.written != en.flushed {
 				continue
 			}
 			if pool == nil {
